@@ -7,9 +7,10 @@ THEOREMS = ['CubicalProto.bd_bd', 'CubicalProto.enum_eq_bd', 'CubicalProto.coef_
             'CounterProto.counterRev_length', 'CounterProto.low_lt', 'CubBridge.boundary_eq_enum', 'CubBridge.enc_valid', 'CubBridge.enc_inj',
             'CubBridge.boundary_in_range', 'CubBridge.boundary_dim', 'CubBridge.coef_cellBB', 'CubBridge.flat_bd_bd', 'CubBridge.boundary_psi', 'CubBridge.boundary_true_swap',
             'CubBridge.flat_bd_bd_all', 'CubBridge.boundary_coboundary', 'CubBridge.valueTop_mono', 'CubBridge.valueVert_mono', 'CubBridge.order_perm', 'CubBridge.order_nondecreasing',
-            'CubBridge.order_faces_first_top', 'CubBridge.order_faces_first_vert']
-PARTIAL = ['C13_partial: dd = 0 of the position-level executable model is proved for every shape, periodic or not, and both classes (flat_bd_bd_all); boundary/coboundary duality, lower-star values and the total / non-decreasing / faces-first order are proved without periodic directions; with periodic directions those three are tied to the code only by '
-           'correspondence and by the harness evaluating dd = 0 on the real boundaries; persistence is compared with the reference reduction over Z2 and Z3']
+            'CubBridge.order_faces_first_top', 'CubBridge.order_faces_first_vert', 'CubBridge.psi_dim', 'CubBridge.boundary_face_all', 'CubBridge.boundary_coboundary_all',
+            'CubBridge.face_digits_gen', 'CubBridge.valueTop_mono_gen', 'CubBridge.valueVert_mono_gen', 'CubBridge.order_faces_first_gen', 'CubBridge.order_faces_first_top_gen', 'CubBridge.order_faces_first_vert_gen']
+PARTIAL = ['C13_partial: for the position-level executable model dd = 0, boundary/coboundary duality, lower-star values and the total / non-decreasing / faces-first order are all proved, for every shape, every subset of periodic directions and both classes; outside Lean remain the geometric reading of the model (checked by the independent Python geometric specification and by the '
+           'correspondence) and the persistence clause, compared with the reference reduction over Z2 and Z3']
 ASSUMPTIONS = ['integer values, +-1000000 stands for +-infinity', 'periodic sides have length >= 3 (as the property states)']
 
 
